@@ -998,6 +998,31 @@ def run(ctx):
         # group operators need a group inside a group next to a tag: all 4-node trees x the group-operator universe
         replay_gen("MC_Query_gengrp.cfg", "case generation: 4-node trees x group-operator queries", "_grp")
 
+    # ---- 4b. tags the schema does not know have NO schema path: a bare term never matches them, whatever it spells ------
+    from hed import HedString as _HS
+    schema_u = _schema()
+    nun = 0
+    for k, fam in enumerate(fams):
+        known = [fam[x]["name"] for x in ("p", "ra", "c")]
+        for ui, unk in enumerate(["Banana", "qqzzx", "Zz-top", "Redd"]):
+            anns = ["%s, (%s, %s)" % (known[0], unk, known[1]), "(%s), %s" % (unk, known[2]), "%s" % unk,
+                    "((%s, %s), %s)" % (known[1], unk, known[2])]
+            qs = [(unk, False), (unk.lower(), False), (unk.upper(), False), ("%s && %s" % (unk, known[(ui + k) % 3]), False),
+                  ("%s || %s" % (unk, unk.lower()), False), ("[%s]" % unk, False)]
+            for an in anns[(ui + k + ctx.seed) % 2::2]:
+                hs = _HS(an, schema_u)
+                for qt, want in qs:
+                    h, oc = compile_query(qt)
+                    ctx.case("unknown-tag:%s|%s" % (an, qt))
+                    nun += 1
+                    if h is None:
+                        continue
+                    got = search(h, hs)
+                    if got != want:
+                        ctx.violation("term-semantics:bare:false-match:unidentified-tag",
+                                      "annotation %r: the bare term %r matches although no tag has it on its schema path (%r is not a tag of the "
+                                      "schema)" % (an, qt, unk), {"kind": "atom", "hed": an, "schema": SCHEMA_VERSION, "query": qt, "expected": want})
+    ctx.note("unknown_tag_searches", nun)
     # ---- 5. binding A/B: random deep cases over the real vocabulary, judged by TLC --------------
     ndeep = 600 if quick else 9000
     vocab, cases, used = build_deep_cases(f, ctx.rng, fams, ndeep, 9 if quick else 12)
